@@ -6,3 +6,12 @@ use crate::prelude::*;
 pub fn credential_uuid(c: &Credential) -> Uuid {
     c.uuid
 }
+
+/// `QueryServerReadTransaction::verify()` (crate-private) with the errors rendered as text.
+pub fn verify_read(txn: &mut QueryServerReadTransaction<'_>) -> Vec<String> {
+    txn.verify()
+        .into_iter()
+        .filter_map(|r| r.err())
+        .map(|e| format!("{e:?}"))
+        .collect()
+}
